@@ -23,6 +23,10 @@ CHECKS = {
 }
 
 PENDING = {}
+CHECKS["C08"] = ("spend", "exploration",
+   "Up to three spend flows with distinct lock owners act on one synced SQLite wallet (1-3 accounts, notes in up to three pools): propose_transfer with or without a lock request, with owner-scoped lock overrides and pool restrictions; a second flow's whole locked proposal executed on another connection from inside the first flow's progress handler (the select->lock window, at a seeded VM step); create + store with mock Sapling provers and short/long expiries; abandon (owner-scoped unlock); owner-agnostic clearing; chain advance with re-sync so that lock windows and pending transactions expire. Every returned proposal is checked against the generator's ground truth and the model's lock / pending-transaction records: inputs are wallet notes of the requested account with the chain's value and mined height, unspent in scanned blocks, with the confirmations the policy requires, at or below the step's anchor, not spent by an unexpired stored pending transaction, not under an active lock of another (non-admitted) owner, pairwise distinct; every step balances inputs = payments + change + fee; payments never exceed the selected inputs; a lock is never acquired over an active foreign lock; get_locked_outputs equals the model's per-note lock table after every operation.",
+   "4.6", "Transparent coins and Orchard/Ironwood transaction creation (real proving) are not part of the flows yet; the uncoverable-request clause is checked conservatively.",
+   "deterministic simulation: interleaved spend flows on two connections under a simulated chain clock vs. spendability and lock model")
 CHECKS["C18"] = ("lifecycle", "exploration",
    "Discrete-event simulation whose clock is the block height: a committed migration (assembled from the real scheduling functions over a generated dependency graph, or an arbitrary representable state from the crate's own generator) is driven by the documented consumer loop (advance_migration -> perform the step -> record -> persist) against a simulated chain, miner, node and wallet scan, with broadcast rejection, lost broadcast records (crash between submitting and recording), never-mined transactions, reorgs with re-mining, foreign spends, scan lag, estimate skew and jumps, long sleeps, store errors on any write and consumer restarts from the store. Checked on every step: a Broadcast step names a Proved transaction whose dependencies are mined, that is due at the effective target, unexpired at the scanned target, not withheld, without an open failure report and not dead; prove batches name distinct live ids; lifecycle states only move forward except that truncate_to_height demotes exactly the rows mined above the height and clears exactly the marks / reports stamped above it; terminal statuses are absorbing (Complete only through a rollback that un-mines); no silent stranding; every persisted state is also written to and read back from the real SQLite store and must be equal, with at most one non-terminal migration per account; after the last fault the migration completes or surfaces Replan / Rebuild, Waiting being accepted only while something can still change.",
    "4.10", "The satisfiability oracle and mined_height answer from the simulated chain (composed through classify_input_observations); PCZT contents are opaque bytes; Rebuild is answered by superseding; the SQLite store's own oracle queries are not exercised here (they belong to C02).",
@@ -95,7 +99,6 @@ def main():
 
 HOOK_COMMITS = ["abbf854"]
 PENDING.update({
- "C08": "check not built yet at this commit (planned: wallet-sim spend, DESIGN.md section 4.6)",
  "C13": "check not built yet at this commit (planned: pczt-sim parties, DESIGN.md section 4.7)",
 })
 main()
